@@ -144,21 +144,21 @@ package main
 //@   ensures {fewest-clients-sort-first} r == (sh[i].clients < sh[j].clients)
 //
 //@ func (sh SnowflakeHeap) Swap(i int, j int)
-//@   props C03, C02, C04
+//@   props C03, C02, C04, C14
 //@   requires shIndexed(sh) && 0 <= i && i < len(sh) && 0 <= j && j < len(sh)
 //@   ensures shIndexed(sh)
 //@   ensures sh[i] == old(sh[j]) && sh[j] == old(sh[i])
 //@   ensures forall k int :: 0 <= k && k < len(sh) && k != i && k != j ==> sh[k] == old(sh[k])
 //
 //@ func (sh *SnowflakeHeap) Push(s interface{})
-//@   props C03, C02, C04
+//@   props C03, C02, C04, C14
 //@   requires sh != nil && shIndexed(*sh) && tagis(s, *Snowflake) && unbox(s, *Snowflake) != nil && allocated(unbox(s, *Snowflake)) && !shMember(*sh, unbox(s, *Snowflake))
 //@   requires forall i int :: 0 <= i && i < len(*sh) ==> (*sh)[i] != unbox(s, *Snowflake)
 //@   ensures shIndexed(*sh) && len(*sh) == old(len(*sh)) + 1 && (*sh)[old(len(*sh))] == unbox(s, *Snowflake)
 //@   ensures forall k int :: 0 <= k && k < old(len(*sh)) ==> (*sh)[k] == old((*sh)[k])
 //
 //@ func (sh *SnowflakeHeap) Pop() (r interface{})
-//@   props C03, C02, C04
+//@   props C03, C02, C04, C14
 //@   requires sh != nil && shIndexed(*sh) && len(*sh) > 0
 //@   ensures shIndexed(*sh) && len(*sh) == old(len(*sh)) - 1
 //@   ensures tagis(r, *Snowflake) && unbox(r, *Snowflake) == old((*sh)[len(*sh)-1]) && unbox(r, *Snowflake).index == -1
@@ -315,6 +315,9 @@ package main
 //@   flag nosafety
 //@   requires h != nil
 //@   loop 1 invariant h.bridgeInfo == old(h.bridgeInfo)
+//   encoding/json leaves a field that the record omits as it was: every line is decoded into a BLANK record, so that
+//   nothing of the previous bridge survives into the next (a record without fingerprint is then rejected).
+//@   at call Decode assert {each-line-decoded-into-a-blank-record} unbox(arg1, *BridgeInfo) == &bridgeInfo && bridgeInfo.DisplayName == "" && bridgeInfo.WebSocketAddress == "" && bridgeInfo.Fingerprint == ""
 //@   ensures {replaces-the-list} err == nil ==> fresh(h.bridgeInfo)
 //@   ensures {failed-load-keeps-the-old-list} err != nil ==> h.bridgeInfo == old(h.bridgeInfo)
 //
@@ -329,20 +332,34 @@ package main
 //
 // ---- HTTP handlers (C14): for ANY request the handler performs exactly one response action (a status line or a
 // body write), and the safety sweep is on: no reachable panic, index, nil or type-assertion failure. ----
+// A failed IPC call is answered with an error status and never with a body (and never with 200): ghost ipcFailed.
+//@ ghost var ipcFailed bool
 //@ func proxyPolls(i *IPC, w http.ResponseWriter, r *http.Request)
 //@   props C14
 //@   requires i != nil && i.ctx != nil && w != nil && r != nil
+//@   at entry ghost ipcFailed = false
+//@   after call ProxyPolls ghost ipcFailed = ret0 != nil
+//@   at call Write assert {body-only-after-a-successful-call} calls(ProxyPolls) == 1 && !ipcFailed && base(arg0) == base(response) && len(arg0) == len(response)
+//@   at call WriteHeader assert {error-statuses-only} arg0 == 400 || arg0 == 500
 //@   ensures {exactly-one-response-action} calls(WriteHeader) + calls(Write) == 1
 //
 //@ func clientOffers(i *IPC, w http.ResponseWriter, r *http.Request)
 //@   props C14
 //@   requires i != nil && i.ctx != nil && w != nil && r != nil
 //@   at call ClientOffers assert {legacy-and-versioned-requests-take-the-same-path} arg1.RemoteAddr == ""
+//@   at entry ghost ipcFailed = false
+//@   after call ClientOffers ghost ipcFailed = ret0 != nil
+//@   at call Write assert {body-only-after-a-successful-call} calls(ClientOffers) == 1 && !ipcFailed
+//@   at call WriteHeader assert {error-statuses-only} arg0 == 400 || arg0 == 500 || arg0 == 503 || arg0 == 504
 //@   ensures {exactly-one-response-action} calls(WriteHeader) + calls(Write) == 1
 //
 //@ func proxyAnswers(i *IPC, w http.ResponseWriter, r *http.Request)
 //@   props C14
 //@   requires i != nil && i.ctx != nil && w != nil && r != nil
+//@   at entry ghost ipcFailed = false
+//@   after call ProxyAnswers ghost ipcFailed = ret0 != nil
+//@   at call Write assert {body-only-after-a-successful-call} calls(ProxyAnswers) == 1 && !ipcFailed && base(arg0) == base(response) && len(arg0) == len(response)
+//@   at call WriteHeader assert {error-statuses-only} arg0 == 400 || arg0 == 500
 //@   ensures {exactly-one-response-action} calls(WriteHeader) + calls(Write) == 1
 //
 // The AMP endpoint (C11, C14): the poll decoded from the URL path is handed to the same IPC method, with the same
@@ -356,6 +373,11 @@ package main
 //@   after call DecodePath ghost ampDecoded = base(ret0)
 //@   at call ClientOffers assert {same-ipc-call-as-the-post-endpoint} base(arg1.Body) == ampDecoded && arg1.RemoteAddr == "" && arg2 == &response
 //@   at call NewArmorEncoder assert {armor-only-after-200} calls(WriteHeader) == 1 && arg0 == w
+//@   at entry ghost ipcFailed = false
+//@   after call ClientOffers ghost ipcFailed = ret0 != nil
+//@   after call EncodePollResponse ghost ipcFailed = ret1 != nil
+//@   at call NewArmorEncoder assert {armor-only-for-a-response-that-exists} !ipcFailed && calls(ClientOffers) + calls(EncodePollResponse) == 1
+//@   at call WriteHeader assert {ok-or-internal-error} (arg0 == 200 && !ipcFailed && calls(ClientOffers) + calls(EncodePollResponse) == 1) || arg0 == 500
 //@   at call Write assert {armors-exactly-the-response} base(arg0) == base(response) && len(arg0) == len(response)
 //@   ensures {exactly-one-status-line} calls(WriteHeader) == 1
 //@   at entry ghost armorOpen = false
